@@ -283,7 +283,8 @@ class Ctx:
                     in_trace = True
                     continue
                 if "Postcondition" in line and ("violated" in line or "false" in line.lower()):
-                    r.violated = "postcondition"
+                    if not r.violated:  # an invariant violation reported earlier is the primary verdict
+                        r.violated = "postcondition"
                     continue
                 if line.startswith("Error: The behavior up to this point is"):
                     in_trace = True
